@@ -17,7 +17,8 @@ ID = 'C04'
 BOUNDS = {
     'quick': 'words: all 2^32 RVint / 2^64 aux values (free bit-vectors); N in {0,1,2} records; BoxSize>0 real, ppd>=1 int free; '
              'posout/velout in {None, False, supplied}^2; all 32 pid-flag subsets; float_dtype in {f4,f8}; '
-             'unpack_bits in {True, False, each name, 3 lists}',
+             'unpack_bits in {True, False, each name, 3 lists}'
+             '; also: ppd also as a float within 1e-9 of an integer <= 100000',
     'thorough': 'same as quick plus N=3 and all pairs of unpack_bits names',
 }
 OUTSIDE = 'float32/float64 rounding of the scale multiplications (real model); numba integer typing is part of the model and is ' \
